@@ -170,6 +170,26 @@ Check C08_cycle :
      exists spans, from_grammar builtins g sh = Err (NonterminalDefinitionsCycle spans)).
 Print Assumptions C08_cycle.
 
+(** A grammar free of all the classes above can only be rejected by [check_subword_spaces]. *)
+Theorem C08_clean_accepted_unless_subword_spaces :
+  forall builtins g sh,
+    no_call_variant g = false -> varying_names g = false -> slash_in_name g = false ->
+    duplicate_plain g = false ->
+    unknown_shell g = false -> non_command_for_shell g = false -> duplicate_for_shell g sh = false ->
+    specs_have_command_plain g = true -> cyclic g sh = false ->
+    (exists v, from_grammar builtins g sh = Ok v) \/
+    (exists l r trace, from_grammar builtins g sh = Err (SubwordSpaces l r trace)).
+Proof. exact clean_verdict. Qed.
+Check C08_clean_accepted_unless_subword_spaces :
+  forall builtins g sh,
+    no_call_variant g = false -> varying_names g = false -> slash_in_name g = false ->
+    duplicate_plain g = false ->
+    unknown_shell g = false -> non_command_for_shell g = false -> duplicate_for_shell g sh = false ->
+    specs_have_command_plain g = true -> cyclic g sh = false ->
+    (exists v, from_grammar builtins g sh = Ok v) \/
+    (exists l r trace, from_grammar builtins g sh = Err (SubwordSpaces l r trace)).
+Print Assumptions C08_clean_accepted_unless_subword_spaces.
+
 (** Non-vacuity: concrete grammars meet each hypothesis, and a clean one is accepted by the model. *)
 Definition ex_sp := mkspan 1 1 2.
 Definition ex_dup : grammar :=
